@@ -10,21 +10,33 @@ Spec == Init /\ [][Next]_case
 C == Cases[case].c
 B == Cases[case].build
 M == Cases[case].match
+\* rep: the building set is presented rep times (default 1).  Class means do not change; the unbiased covariance of a class with n traces and
+\* scatter matrix Sc = sum (x - m)(x - m)^T becomes rep Sc / (rep n - 1)  (lemma BuildReplication: equal to the definition applied to the
+\* literally repeated rows, checked by TLC for 2 and 3 repetitions) - this is how profiles built from thousands of traces are specified.
+Rp == IF "rep" \in DOMAIN Cases[case] THEN Cases[case].rep ELSE 1
+Scatter(rs, a, b) == LET n == Len(rs) IN IF n = 0 THEN RZero ELSE Rat(n * SumAB(rs, a, b) - SumA(rs, a) * SumA(rs, b), n)
+PooledRep(K) == [a \in 1..C.S |-> [b \in 1..C.S |->
+     RDiv(RSumTo(LAMBDA k : LET rs == ClassRows(B, C.classes[k]) IN
+                            IF K * Len(rs) < 2 THEN RZero ELSE RDiv(RMul(RInt(K), Scatter(rs, a, b)), RInt(K * Len(rs) - 1)), Len(C.classes)), RInt(Len(C.classes)))]]
+RepRows(rows, K) == LET f[k \in 0..K] == IF k = 0 THEN <<>> ELSE f[k - 1] \o rows IN f[K]
+BuildReplication == /\ PooledRep(1) = Pooled(B, C.classes, C.S)
+                    /\ \A K \in {2, 3} : /\ Pooled(RepRows(B, K), C.classes, C.S) = PooledRep(K)
+                                          /\ Templates(RepRows(B, K), C.classes, C.S) = Templates(B, C.classes, C.S)
 T == Templates(B, C.classes, C.S)
-P == Pooled(B, C.classes, C.S)
+P == PooledRep(Rp)
 A == PInv(P, C.S)
 Full == AllClassesHaveTwo(B, C.classes)
 \* (M) lemmas
 PInvLemma == IsPInv(A, P, C.S) /\ PSD(P, C.S)
 KMatchesP == /\ TemplateK(B, C.classes, C.S, C.variant) = T
-             /\ PooledK(B, C.classes, C.S) = P
+             /\ (Rp = 1 => PooledK(B, C.classes, C.S) = P)
 \* (M) rescaling one sample of every trace (building and matching) by a constant c rescales the profile accordingly - pooled covariance entries by
 \* c for every index equal to that sample - and leaves every matching score unchanged when the pooled covariance has full rank (the Mahalanobis
 \* distance does not depend on the unit a sample is measured in).  Checked with c = 2 on sample 1; the harness uses it with c = 4096 to present
 \* profiles whose samples differ by orders of magnitude.
 ScaleRows(rows, c) == [i \in 1..Len(rows) |-> [rows[i] EXCEPT !.t = [a \in 1..C.S |-> IF a = 1 THEN c * rows[i].t[a] ELSE rows[i].t[a]]]]
 FullRank == IF C.S = 1 THEN P[1][1][1] # 0 ELSE RSub(RMul(P[1][1], P[2][2]), RMul(P[1][2], P[2][1]))[1] # 0
-ScalingLemma == (FullRank /\ Len(M) > 0) =>
+ScalingLemma == (Rp = 1 /\ FullRank /\ Len(M) > 0) =>
     LET B2 == ScaleRows(B, 2)  M2 == ScaleRows(M, 2)
         T2 == Templates(B2, C.classes, C.S)  P2 == Pooled(B2, C.classes, C.S)  A2 == PInv(P2, C.S)
         f(a) == IF a = 1 THEN 2 ELSE 1
